@@ -371,6 +371,12 @@ fn arr_debug<'a, T: ReadUnchecked>(a: &ReadArray<'a, T>) -> Out
 where
     T::HostType: Copy + fmt::Debug,
 {
+    // Debug walks iter_res to its end even after the formatter has failed: look at the iterator first
+    let n = a.len();
+    let seen = a.iter_res().take(n.saturating_add(2).min(1 << 20)).count();
+    if seen != n.min(1 << 20) {
+        return Out::Incons(format!("iter_res yields {} items, len() is {}", seen, n));
+    }
     let (s, ok, capped) = debug_capped(a, usize::MAX);
     if capped {
         return Out::Incons(format!("Debug of an array of {} items printed more than 4 MB", a.len()));
@@ -420,6 +426,10 @@ where
             let via_ref: Vec<T::HostType> = (&cow).into_iter().take(ITER_CAP).collect();
             if items != via_ref {
                 return Out::Incons("IntoIterator for &ReadArrayCow differs from iter()".to_string());
+            }
+            if items.len() != cow.len().min(ITER_CAP) {
+                // (Debug below walks the iterator to its end: not with an iterator that does not stop)
+                return Out::Incons(format!("iter() yields {} items, len() is {}", items.len(), cow.len()));
             }
             let (s, ok, capped) = debug_capped(&cow, usize::MAX);
             let flat = {
